@@ -686,6 +686,8 @@ def replay_atype(cases, F, mon):
             base = [1, "a", 2.5]
         else:
             base = [A.concrete(kind, i + 1, 0) if kind != "bool" else bool(i % 2) for i in range(3)]
+        if kind in ("int", "float") and n_case % 3 == 0:
+            base[1] = type(base[1])(0)          # a zero is a value like any other (promotion converts it, it does not vanish)
         # a nullable column does not have to HOLD a None (it may have been overwritten or sliced away): promotion keeps the
         # nullability of the dtype either way
         holds_none = nullable and (n_case // 2) % 2 == 0
@@ -768,6 +770,33 @@ def replay_atype(cases, F, mon):
                     F.add("promotion_contents", c, [repr(x)[:20] for x in v], "all elements converted or the assignment refused")
             elif not views_equal(before, vec_view(v)) or v.fingerprint() != fpb:
                 F.add("atomic", c, {"dtype": str(v.schema()), "vals": [repr(x)[:20] for x in v]}, {"dtype": "<int>", "unchanged": True})
+    # a key that Python rejects (an index list / vector reaching len(v), or below -len(v)) together with a value that would
+    # promote the column or make it nullable: the assignment fails and NOTHING has changed - contents, dtype, fingerprint
+    from datetime import datetime as _dtm
+    for base, wide in (([1, 2, 3], 2.5), ([1, 2, 3], None), ([1, 2, 3], 2j), ([1.5, 2.5], 1j), ([date(2020, 1, 1), date(2020, 1, 2)], _dtm(2020, 1, 1, 5)), ([0], 2.5)):
+        nb = len(base)
+        for kname, key in (("[0, n]", [0, nb]), ("[n]", [nb]), ("[-n-1]", [-nb - 1]), ("Vector([0, n])", Vector([0, nb])), ("(0, n)", (0, nb)), ("n", nb), ("-n-1", -nb - 1)):
+            for vform in ("scalar", "sequence"):
+                if vform == "sequence" and isinstance(key, int):
+                    continue
+                npos = 1 if isinstance(key, int) else len(list(key))
+                v = Vector(list(base), name="nm")
+                before, fpb = vec_view(v), v.fingerprint()
+                c = {"suite": "atype", "values": repr(base), "key": kname, "value": repr(wide), "value form": vform}
+                st, _, ex = attempt(lambda: v.__setitem__(key, wide if vform == "scalar" else [wide] * npos))
+                executed += 1
+                if st == "ok":
+                    F.add("assign_shape", c, [repr(x) for x in v], "an IndexError (the key addresses a position the vector does not have)")
+                elif not views_equal(before, vec_view(v)) or v.fingerprint() != fpb:
+                    F.add("atomic", c, {"dtype": str(v.schema()), "vals": [repr(x) for x in v]}, {"dtype": str(Vector(list(base)).schema()), "vals": [repr(x) for x in base]})
+                # the same through a table
+                t = Table({"a": list(base), "k": list(range(nb))})
+                tb = table_view(t)
+                rowkey = key if not isinstance(key, int) else key
+                st, _, ex = attempt(lambda: t.__setitem__((rowkey, "a"), wide if vform == "scalar" else [wide] * npos))
+                executed += 1
+                if st != "ok" and not views_equal(tb, table_view(t)):
+                    F.add("atomic", dict(c, through="table"), table_view(t), tb)
     return executed
 
 
@@ -908,7 +937,7 @@ def fplaws(out_path):
               "date": [_d(2020, 1, 1), _d(2020, 1, 2), _d(1, 1, 1), None],
               # object columns: unhashable cells are told apart by their contents, recursively
               "object": [{"a": 3, "b": 4}, {"a": 3, "b": 40}, {"a": 3}, {"b": 4, "a": 3, "c": None}, [1, 2], [1, 3], [1, [2, {"k": 1}]], [1, [2, {"k": 2}]],
-                         (1, 2), {1, 2}, {1, 3}, "x", None]}
+                         (1, 2), (9, 2), (1, (2, 3)), (1, (5, 3)), [9, 2], [[7, 1], 2], [[8, 1], 2], {1, 2}, {1, 3}, "x", None]}
 
     def unequal(x, y):
         if x is None or y is None:
